@@ -67,7 +67,7 @@ func init() {
 		NumCases:   func(tier string) int { a, b, c := c18Counts(tier); return a + b + c },
 		Run:        runC18,
 		Floor: func(tier string, st map[string]int64) string {
-			for _, k := range []string{"c18.iterator-cases", "c18.closed-before-first-next", "c18.closed-twice", "c18.abandoned-mid-range", "c18.producer-exit-observed", "c18.pin-release-observed", "c18.reentrant-cases", "c18.inner-calls", "c18.inner/Set", "c18.inner/Flush", "c18.inner/SetCollection-new", "c18.inner/RemoveCollection-other", "c18.inner/AllocStats", "c18.inner/nested-iterator", "c18.free-running-cases", "c18.free-running-callback-calls", "c18.visits-ended-by-a-read-error", "c18.visit-errors-reported"} {
+			for _, k := range []string{"c18.iterator-cases", "c18.closed-before-first-next", "c18.closed-twice", "c18.abandoned-mid-range", "c18.producer-exit-observed", "c18.pin-release-observed", "c18.reentrant-cases", "c18.inner-calls", "c18.inner/Set", "c18.inner/Flush", "c18.inner/SetCollection-new", "c18.inner/RemoveCollection-other", "c18.inner/AllocStats", "c18.inner/nested-iterator", "c18.free-running-cases", "c18.free-running-callback-calls", "c18.visits-ended-by-a-read-error", "c18.visit-errors-reported", "c18.iterators-on-snapshots"} {
 				if st[k] == 0 {
 					return "no " + k + " observed"
 				}
@@ -182,6 +182,14 @@ func runC18Iter(ctx *Ctx, idx int, cs c18Iter, r *gen.R) Result {
 	e, keys := c18Env(idx, cs.n, cs.state, r)
 	c := e.H["t"]
 	m := e.M.Live.Colls["t"]
+	// a quarter of the cases iterate over a snapshot's collection instead of the store's own
+	onSnap := idx%4 == 3
+	if onSnap {
+		e.Snapshot(-1)
+		c = e.Snaps[0].H["t"]
+		ctx.Stats["c18.iterators-on-snapshots"]++
+	}
+	refsBefore := gkvlite.VerifRootInfo(c).Refs
 	var target []byte
 	switch cs.target {
 	case 0:
@@ -285,7 +293,15 @@ func runC18Iter(ctx *Ctx, idx int, cs c18Iter, r *gen.R) Result {
 		ctx.Stats["c18.producer-exit-observed"]++
 	}
 	// ... and release the version it pinned
-	if !e.Failed() {
+	if !e.Failed() && onSnap {
+		if ri := gkvlite.VerifRootInfo(c); ri.Open && ri.Refs != refsBefore {
+			e.Failf("C18/version-pin-not-released/snapshot-iterator", "the version of the snapshot's collection had refs=%d before the iterator was created and has refs=%d after it finished (tail %s): the iterator did not release what it pinned", refsBefore, ri.Refs, tail)
+		} else {
+			ctx.Stats["c18.pin-release-observed"]++
+		}
+		e.SnapClose(0)
+	}
+	if !e.Failed() && !onSnap {
 		pinReleased(e, c, "iterator "+tail)
 		e.SetItem("t", []byte("after"), []byte("x"), 5, false) // retires the old version if nobody pins it
 		if !e.Failed() && rootBalance(c) != base {
